@@ -34,7 +34,11 @@ from sdc11073.xml_types import isoduration
 from sdc11073.xml_types import xml_structure as xs
 
 READY = False
-MANIFEST = dict(technique='…', text='…', note='…', ref='5 C05')
+MANIFEST = dict(
+    technique='Lean 4 theorems over a model of the declarative XML binding (one write/read pair per descriptor kind, abstract scalar codec, classes = member lists of a generated table): per-kind read-after-write, frame lemmas, class-level round trip by induction over the member list and the nesting depth for every table whose classes satisfy a decidable side condition (kernel-evaluated for the generated table); type-directed differential testing of as_etree_node / from_node against the compiled model',
+    text='Theorems (Properties/C05.lean): read_write_kind (all 8 descriptor kinds incl. nested instances, xsi:type substitution, lists, raw content), write_frame / read_local (members with distinct XML names do not interfere), roundtrip (for every class with okCls and every well-typed instance of any nesting depth: writeCls succeeds and readCls gives the instance back), rewrite_same (writing the read value gives the same XML), roundtrip_with_xsi_type, absent_defaults / empty_element_defaults (an absent attribute / child reads as None, [] or the declared default), generated_classes_ok (kernel evaluation: all 245 classes of the generated table satisfy okCls except msg_types.Mds/Vmd/Channel). The table (Generated/Schema.lean: 245 classes, ~1290 members, xsi:type registries) is regenerated from the running code; on every run the real as_etree_node / mk_node output (names interned, prefixes resolved) is compared with the model writeCls and from_node with readCls for generated instances of every class (presence patterns, list lengths, enum members, xsi:type substitutions, XML-legal strings), plus reads with absent defaulted members and malformed lexical forms.',
+    note='partial: (1) XSD validity is not modelled - the libxml2 validation of generated message documents is reported as supporting evidence only; (2) scalar converters are abstract: their round trip is a hypothesis (Codec.RT inside WT), proved for the real converters in C18; the join/split of list lexical forms is a hypothesis too; (3) C05_full is not claimed: classes outside okCls (msg_types.Mds, Vmd, Channel: ContainerProperty(None) writes into the node itself) and values outside WT (None in a mandatory member, unresolvable xsi:type, empty items in text lists) are excluded; ExtensionLocalValue / any-content is opaque; mex Metadata.from_node (dialect dispatch, takes the soap body) and the body-less Unsubscribe messages are outside the model. Trusted: Lean kernel, translator + harness (interning of names, QName resolution), lxml.',
+    ref='5 C05')
 DRIVERS = ['drv_c05']
 RULE = ('one case = one generated instance of one class (presence pattern, list lengths, enum members, xsi:type '
         'substitutions, strings); distinct by the canonical value; non-trivial = at least 2 members present and at least '
@@ -558,9 +562,7 @@ class Enc:
             attrs.append((k, v))
         attrs.sort()
         kids = [c for c in node if isinstance(c.tag, str)]
-        text = node.text or ''
-        if kids and not text.strip():
-            text = ''
+        text = node.text or ''      # documents are never pretty-printed here: white space is content
         if not raw and node.tag in self.qtags and text:
             text = ' '.join(self._resolve(t, node.nsmap) for t in text.split())
         attrs = sorted((int(self.nid(k)), v) for k, v in attrs)
@@ -766,7 +768,7 @@ def xml_canon(node):
             v = '{%s}%s' % (node.nsmap.get(pre), local)
         attrs.append([k, v])
     kids = [xml_canon(c) for c in node if isinstance(c.tag, str)]
-    return [node.tag, sorted(attrs), (node.text or '') if not kids or (node.text or '').strip() else '', kids]
+    return [node.tag, sorted(attrs), node.text or '', kids]
 
 
 def first_diff(a, b):
@@ -808,6 +810,7 @@ def oracle(ctx, tab: Table, obj, case):
     if node is None:
         ctx.count('oracle:class-without-xml-body')     # eventing Unsubscribe: the body is empty by design
         return True
+    validate_evidence(ctx, obj, node)
     ok = True
     text = etree.tostring(node)
     for how, n in (('memory', node), ('reparsed', etree.fromstring(text))):
@@ -817,6 +820,13 @@ def oracle(ctx, tab: Table, obj, case):
             ctx.fail(f'read-raises:{key}:{_exc_sig(ex)}', f'{key}: from_node of its own XML ({how}) raises {type(ex).__name__}: {str(ex)[-300:]}',
                      {**case, 'xml': text.decode()})
             return False
+        for name, p in sh.class_props(type(back)):
+            if sh.actual(back, p) is None and p._implied_py_value is not None:
+                ctx.count('oracle:implied-checked')
+                if getattr(back, name) != p._implied_py_value:
+                    ctx.fail(f'implied:{key}.{name}', f'{key}.{name} is absent but reads as {getattr(back, name)!r} instead of the implied '
+                             f'{p._implied_py_value!r}', case)
+                    ok = False
         got = canon(back)
         if got != want:
             where, u, w = member_of_diff(obj, back)
@@ -834,6 +844,43 @@ def oracle(ctx, tab: Table, obj, case):
             ok = False
             break
     return ok
+
+
+_VALIDATOR = None
+
+
+def validator():
+    global _VALIDATOR
+    if _VALIDATOR is None:
+        from sdc11073.schema_resolver import mk_schema_validator
+        specs = [e.value for e in default_ns_helper.prefix_enum]
+        _VALIDATOR = mk_schema_validator(specs, default_ns_helper)
+    return _VALIDATOR
+
+
+def validate_evidence(ctx, obj, node):
+    """supporting evidence only: validate documents whose root is a global element of the bundled schemas"""
+    nt = getattr(type(obj), 'NODETYPE', None)
+    if not isinstance(nt, etree.QName) or node.tag != nt.text or not type(obj).__module__.endswith(('msg_types', 'eventing_types', 'wsd_types')):
+        return
+    try:
+        ok = validator().validate(etree.fromstring(etree.tostring(node)))
+    except Exception:  # noqa: BLE001
+        ctx.count('xsd:validator-error')
+        return
+    if ok:
+        ctx.count('xsd:valid')
+        return
+    err = validator().error_log.last_error
+    msg = err.message if err is not None else '?'
+    if 'No matching global declaration' in msg:
+        ctx.count('xsd:no-global-element')
+        return
+    ctx.count('xsd:invalid')
+    import re
+    reason = re.sub(r"'[^']*'", "'…'", msg)[:110]
+    d = ctx.notes.setdefault('xsd_invalid_reasons', {})
+    d[reason] = d.get(reason, 0) + 1
 
 
 def _exc_sig(ex):
@@ -1011,6 +1058,21 @@ def _diff_tokens(a, b):
     ta, tb = a.split(' '), b.split(' ')
     k = next((i for i, (x, y) in enumerate(zip(ta, tb)) if x != y), min(len(ta), len(tb)))
     return ' '.join(_unh(t) for t in ta[max(0, k - 6):k + 8])
+
+
+def search(ctx):
+    """failing-input search: the round-trip oracle over many more generated instances of every class"""
+    tab = table()
+    for ci, cls in enumerate(tab.clist):
+        for k in range(200, 320):
+            g = Gen(tab, ctx.subrng('gen', ci, k), max_depth=ctx.subrng('d', ci, k).choice([1, 2, 3]))
+            try:
+                obj = g.instance(cls)
+            except GenError:
+                continue
+            oracle(ctx, tab, obj, {'class': tab.keys[ci], 'sub': [ci, k]})
+        if len(ctx.failures) > 20:
+            return
 
 
 def replay(ctx, obj):
